@@ -453,3 +453,85 @@ def global_state_uses(P, scope_fns, holders):
                         req.append(pv.params.get(b["local"]))
             out.append((f, h, sorted(set(req) - key_params), sorted(key_params)))
     return out
+
+
+# ---------------------------------------------------------------------------------------------------- virtual inlining
+_INLINED = {}
+
+
+def inlined(P, fn, depth=3, pred=None):
+    """A copy of `fn` in which every statically resolved call of a workspace function of the same crate carries the callee's
+    parameters and body under the key "inl" (recursively, up to `depth`, never re-entering a function already on the inline
+    stack).  Node walks, enclosing-context queries and provenance (`Prov` binds the callee's parameter patterns to the call's
+    arguments) then see through helper functions, so that extracting part of a function into a helper — or splitting a long
+    function — leaves a structural rule's verdict unchanged.  `return` inside an inlined body is renamed `InlRet` (it leaves
+    the helper, not the function under analysis).  `pred(callee_fn)` can restrict what is inlined."""
+    import copy
+    from facts import Fn, call_name
+    key = (id(P), fn.path, depth, id(pred) if pred else None)
+    if key in _INLINED:
+        return _INLINED[key]
+    crate = fn.path.split("::")[0].lstrip("<")
+
+    def expand(node, stack, d):
+        st = [node]
+        while st:
+            n = st.pop()
+            if isinstance(n, list):
+                st.extend(n)
+                continue
+            if not isinstance(n, dict):
+                continue
+            if n.get("k") in ("Call", "MethodCall") and "inl" not in n and d > 0:
+                c = call_name(n)
+                g = P.fns.get(c) if c else None
+                if (g is not None and not g.derived and g.kind in ("Fn", "AssocFn") and g.path not in stack and g.crate == fn.crate
+                        and (pred is None or pred(g))):
+                    body = copy.deepcopy(g.body)
+                    params = copy.deepcopy(g.params)
+                    for x in _all_nodes(body):
+                        if x.get("k") == "Ret":
+                            x["k"] = "InlRet"
+                    expand(body, stack + [g.path], d - 1)
+                    n["inl"] = {"fn": g.path, "params": params, "body": body}
+            for kk, v in n.items():
+                if kk != "inl" and isinstance(v, (dict, list)):
+                    st.append(v)
+
+    raw = dict(fn.raw)
+    raw["body"] = copy.deepcopy(fn.body)
+    raw["params"] = copy.deepcopy(fn.params)
+    g = Fn(raw, fn.crate)
+    expand(g.body, [fn.path], depth)
+    _INLINED[key] = g
+    return g
+
+
+def _all_nodes(root):
+    st = [root]
+    while st:
+        n = st.pop()
+        if isinstance(n, list):
+            st.extend(n)
+        elif isinstance(n, dict):
+            if "k" in n:
+                yield n
+            st.extend(v for v in n.values() if isinstance(v, (dict, list)))
+
+
+def scope_fns(P, fn, depth=3):
+    """`fn` and the workspace functions of its crate it calls (transitively, up to depth): where a rule looks for a construct
+    that a refactoring may have moved into a helper"""
+    out, seen = [fn], {fn.path}
+    frontier = [fn]
+    for _ in range(depth):
+        nxt = []
+        for f in frontier:
+            for c in sorted(P.callees_of(f)[0]):
+                g = P.fns.get(c)
+                if g is not None and c not in seen and g.crate == fn.crate and not g.derived:
+                    seen.add(c)
+                    out.append(g)
+                    nxt.append(g)
+        frontier = nxt
+    return out
